@@ -13,6 +13,7 @@
 (*               (reghttp.Do with ExpectLen = descriptor size),            *)
 (*               types/blob/reader.go:NewReader (size from Content-Length  *)
 (*               when the descriptor has none; LimitRead only when size>0) *)
+(*   OpenFailed  scheme/reg/blob.go:BlobGet: fall back to descriptor.URLs   *)
 (*   ServeOK     environment: one 2xx reply of the registry, then          *)
 (*               internal/reghttp/http.go:Resp.next lines 481-505          *)
 (*               (Content-Length check only at offset 0, Content-Range     *)
@@ -79,11 +80,12 @@ CONSTANTS
   LyingSizes,  \* BOOLEAN: also descriptors whose size contradicts the digest
   InlineData,  \* BOOLEAN: also descriptors with an inline Data field
   Conc,        \* config.Host.ReqConcurrent of the registry (regclient's default is 3)
-  Probes       \* BOOLEAN: the caller may also ask for its position / try an arbitrary seek
+  Probes,      \* BOOLEAN: the caller may also ask for its position / try an arbitrary seek
+  Exts         \* subset of BOOLEAN: descriptors with an external URL (descriptor.URLs)
 
 VARIABLES
   scn,       \* the scenario: descriptor, stored content, scheme, access path (constant)
-  pc,        \* "closed" | "req" (a request is in flight) | "ready" | "stopped"
+  pc,        \* "closed" | "req" (a request is in flight) | "openfailed" | "ready" | "stopped"
   why,       \* why the request in flight was sent: "open" | "resume" | "seek"
   pend,      \* partial result of the Resp.Read that is resuming
   src,       \* "http" (reghttp.Resp) | "file" (*os.File) | "mem" (*bytes.Reader)
@@ -99,11 +101,12 @@ VARIABLES
   got,       \* what the caller has been handed since the last rewind (observation)
   cst,       \* "reading" | "clean" | "error" (observation: how the stream ended)
   ret,       \* last return value seen by the caller
-  seeks, again
+  seeks, again,
+  extused    \* the external URL of the descriptor is being used (scheme/reg/blob.go:66)
 
 tvars == <<conn, readCur, readMax, rdone, retry, backoff, held, drops, fails>>
 rvars == <<lim, rbytes, bsize, hashed>>
-vars == <<scn, pc, why, pend, src, tvars, rvars, got, cst, ret, seeks, again>>
+vars == <<scn, pc, why, pend, src, tvars, rvars, got, cst, ret, seeks, again, extused>>
 
 Sym == {"a", "b"}
 Other(s) == IF s = "a" THEN "b" ELSE "a"
@@ -152,15 +155,16 @@ Init ==
      \E sch \in Schemes : \E v \in Vias :
      \E w \in (IF sch = "reg" THEN Withs ELSE {FALSE}) : \E ch \in (IF sch = "reg" THEN Chunks ELSE {Big}) :
      \E lt \in (IF sch = "ocidir" /\ sv # c THEN BOOLEAN ELSE {FALSE}) :
+     \E ex \in (IF sch = "reg" THEN Exts ELSE {FALSE}) :
         scn = [intended |-> c, size |-> sz, served |-> sv, data |-> d, scheme |-> sch, via |-> v,
-               with |-> w, chunk |-> ch, late |-> lt]
+               with |-> w, chunk |-> ch, late |-> lt, ext |-> ex]
   /\ pc = "closed" /\ why = "open" /\ pend = NoPend /\ src = "none"
   /\ conn = [data |-> <<>>, end |-> "eof"]
   /\ readCur = 0 /\ readMax = 0 /\ rdone = FALSE /\ retry = 0 /\ backoff = 0
   /\ held = 0 /\ drops = 0 /\ fails = 0
   /\ lim = NoLim /\ rbytes = 0 /\ bsize = 0 /\ hashed = <<>>
   /\ got = <<>> /\ cst = "reading" /\ ret = [seq |-> 0, op |-> "none", n |-> 0, err |-> "none"]
-  /\ seeks = 0 /\ again = 0
+  /\ seeks = 0 /\ again = 0 /\ extused = FALSE
 
 \* types/blob/reader.go:NewReader / Seek: (re)create LimitRead + TeeReader + digester
 SetupReader(sz) ==
@@ -208,7 +212,7 @@ BackoffReset == IF backoff > RetryLimit THEN backoff - 1 ELSE backoff
 Open ==
   /\ pc = "closed"
   /\ UNCHANGED <<scn, why, pend, readCur, rdone, retry, backoff, held, drops, fails, got, cst,
-                 seeks, again>>
+                 seeks, again, extused>>
   /\ IF DataOK
      THEN /\ src' = "mem" /\ pc' = "ready"
           /\ conn' = [data |-> Inline, end |-> "eof"]
@@ -262,7 +266,7 @@ Read(k) ==
   /\ pc = "ready"
   /\ cst = "reading" \/ again < MaxAgain
   /\ again' = IF cst = "reading" THEN again ELSE again + 1
-  /\ UNCHANGED <<scn, src, seeks>>
+  /\ UNCHANGED <<scn, src, seeks, extused>>
   /\ IF lim # NoLim /\ lim < 0
      THEN /\ Deliver(0, <<>>, "limit")                         \* limitread.go:17
           /\ UNCHANGED <<tvars, pc, why, pend>>
@@ -277,7 +281,7 @@ ResetReader ==
 Seek0 ==
   /\ pc = "ready" /\ seeks < MaxSeeks /\ scn.via = "reader"
   /\ seeks' = seeks + 1
-  /\ UNCHANGED <<scn, src, again, pend, readMax, rdone, backoff, held, drops, fails>>
+  /\ UNCHANGED <<scn, src, again, pend, readMax, rdone, backoff, held, drops, fails, extused>>
   /\ IF src = "http" /\ readCur # 0
      THEN /\ readCur' = 0 /\ retry' = retry - 1                 \* http.go:Resp.Seek
           /\ pc' = "req" /\ why' = "seek"
@@ -291,18 +295,18 @@ Seek0 ==
 Tell ==
   /\ Probes /\ pc = "ready" /\ scn.via = "reader" /\ ret.op \notin {"tell", "seekbad"}
   /\ ret' = R("tell", rbytes, "none")
-  /\ UNCHANGED <<scn, pc, why, pend, src, tvars, rvars, got, cst, seeks, again>>
+  /\ UNCHANGED <<scn, pc, why, pend, src, tvars, rvars, got, cst, seeks, again, extused>>
 
 \* BReader.Seek to any other position: refused, changes nothing (reader.go:142)
 SeekBad ==
   /\ Probes /\ pc = "ready" /\ scn.via = "reader" /\ ret.op \notin {"tell", "seekbad"}
   /\ ret' = R("seekbad", rbytes, "error")
-  /\ UNCHANGED <<scn, pc, why, pend, src, tvars, rvars, got, cst, seeks, again>>
+  /\ UNCHANGED <<scn, pc, why, pend, src, tvars, rvars, got, cst, seeks, again, extused>>
 
 Stop ==
   /\ pc = "ready" /\ cst # "reading"
   /\ pc' = "stopped"
-  /\ UNCHANGED <<scn, why, pend, src, tvars, rvars, got, cst, ret, seeks, again>>
+  /\ UNCHANGED <<scn, why, pend, src, tvars, rvars, got, cst, ret, seeks, again, extused>>
 
 \* ------------------------------------------------------------------ requests
 \* the request in flight has failed for good: Resp.next returns an error
@@ -310,9 +314,24 @@ Fail ==
   CASE why = "resume" ->
          /\ pc' = "ready" /\ rdone' = TRUE /\ pend' = NoPend
          /\ Deliver(pend.n, pend.data, pend.err)                \* http.go:577-582
+    [] why = "open" ->
+         /\ pc' = "openfailed"
+         /\ UNCHANGED <<rvars, got, cst, ret, rdone, pend>>
     [] OTHER ->
          /\ pc' = "stopped" /\ cst' = "error" /\ ret' = R(why, 0, "error")
          /\ UNCHANGED <<rvars, got, rdone, pend>>
+
+\* scheme/reg/blob.go:66-87: reghttp.Do failed; a descriptor with URLs is tried once more at the
+\* external URL (a new Resp: retryCount, readCur, readMax start over; the host's back-off stays)
+OpenFailed ==
+  /\ pc = "openfailed"
+  /\ UNCHANGED <<scn, why, pend, src, conn, rdone, backoff, held, drops, fails, rvars, got, seeks, again>>
+  /\ IF scn.ext /\ ~extused
+     THEN /\ extused' = TRUE /\ pc' = "req"
+          /\ retry' = 0 /\ readCur' = 0 /\ readMax' = scn.size
+          /\ UNCHANGED <<cst, ret>>
+     ELSE /\ pc' = "stopped" /\ cst' = "error" /\ ret' = R("open", 0, "error")
+          /\ UNCHANGED <<extused, retry, readCur, readMax>>
 
 \* the request in flight got a usable reply
 Succeed(body, end, clv) ==
@@ -330,13 +349,13 @@ GiveUp ==
   /\ pc = "req" /\ retry > RetryLimit                                        \* http.go:274
   /\ Fail
   /\ UNCHANGED <<scn, why, src, conn, readCur, readMax, retry, backoff, held, drops, fails,
-                 seeks, again>>
+                 seeks, again, extused>>
 
 ServeErr(kind) ==
   /\ pc = "req" /\ retry <= RetryLimit /\ fails < MaxFails
   /\ held < Conc                              \* pqueue.Acquire; released again after the failed attempt
   /\ retry' = retry + 1 /\ fails' = fails + 1 /\ UNCHANGED held
-  /\ UNCHANGED <<scn, why, src, conn, readCur, readMax, drops, seeks, again>>
+  /\ UNCHANGED <<scn, why, src, conn, readCur, readMax, drops, seeks, again, extused>>
   /\ IF kind = "http404"
      THEN Fail /\ UNCHANGED backoff                                          \* dropHost
      ELSE /\ backoff' = backoff + 1                                          \* backoffSet
@@ -371,7 +390,7 @@ ServeOK(r) ==
   /\ drops' = IF r.cut = NoCut THEN drops ELSE drops + 1
   /\ held < Conc                                                             \* pqueue.Acquire
   /\ retry' = retry + 1
-  /\ UNCHANGED <<scn, why, src, readCur, backoff, fails, seeks, again>>
+  /\ UNCHANGED <<scn, why, src, readCur, backoff, fails, seeks, again, extused>>
   /\ IF readCur = 0 /\ clv >= 0 /\ readMax > 0 /\ readMax # clv
      THEN \* http.go:493 unexpected content-length: plain error, the loop tries again
           UNCHANGED <<pc, pend, conn, readMax, rdone, rvars, got, cst, ret, held>>
@@ -387,14 +406,14 @@ ServeOK(r) ==
 ReadAny == \E k \in KS : Read(k)
 ServeErrAny == \E kind \in {"neterr", "http500", "http404"} : ServeErr(kind)
 ServeOKAny == \E r \in Replies : ServeOK(r)
-Next == Open \/ ReadAny \/ Seek0 \/ Tell \/ SeekBad \/ Stop \/ GiveUp \/ ServeErrAny \/ ServeOKAny
+Next == Open \/ OpenFailed \/ ReadAny \/ Seek0 \/ Tell \/ SeekBad \/ Stop \/ GiveUp \/ ServeErrAny \/ ServeOKAny
 
 Done == pc = "stopped"
 Spec == Init /\ [][Next]_vars
 
 \* ------------------------------------------------------------------ design invariants
 TypeOK ==
-  /\ pc \in {"closed", "req", "ready", "stopped"}
+  /\ pc \in {"closed", "req", "openfailed", "ready", "stopped"}
   /\ cst \in {"reading", "clean", "error"}
   /\ lim = NoLim \/ lim >= -1
   /\ readCur >= 0 /\ rbytes >= 0
